@@ -23,7 +23,8 @@ def worker_init():
     Perm = P
 
 
-from past import mkperm  # noqa: E402  (objects with a past: fresh / used / derived from a used object)
+from past import mkperm
+import past  # noqa: E402  (objects with a past: fresh / used / derived from a used object)
 
 
 def impl(op, a):
@@ -48,7 +49,7 @@ def impl(op, a):
     if op == "count":
         return guarded(lambda: str(mkperm(pseq(a[0])).count_occurrences_in(mkperm(pseq(a[1]), 1))))
     if op == "countof":
-        return guarded(lambda: str(Perm(pseq(a[1])).count_occurrences_of(Perm(pseq(a[0])))))
+        return guarded(lambda: str(getattr(Perm(pseq(a[1])), past.alias("count_occurrences_of", tuple(a)))(Perm(pseq(a[0])))))
     if op in ("lfc", "lfcspec"):
         return guarded(lambda: ";".join("%d,%d" % x for x in Perm(pseq(a[0])).left_floor_and_ceiling()))
     if op == "hist":
